@@ -104,3 +104,14 @@ Proof.
   destruct (RC.encodable_of_py_encode enc c bom enc0 laws t x Hx) as [b [Hb _]].
   exact (C06_prepare_idem_text_inherited enc c bom enc0 laws s e t b lev indent Hc He Ht Hb Hle Hind).
 Qed.
+
+(* the hypotheses are satisfiable: the preamble of DomSpecFacts.ex_tree (text "hello", no options) in utf-8 *)
+From DX Require RoundTripCodecUtf.
+Example ex_text_hypotheses :
+  codec_ok (B "utf-8") /\ c_enc ascii (tx "utf-8") = Some (B "utf-8") /\ tx "hello" <> [] /\
+  (exists x, py_encode (tx "hello") (B "utf-8") = Ok x) /\ RC.le_arg WNone /\ RC.indent_arg (WInt 4).
+Proof.
+  split; [apply (RoundTripCodecUtf.codec_ok_utf8 (B "utf-8") utf8); vm_compute; reflexivity|].
+  split; [vm_compute; reflexivity|]. split; [discriminate|]. split; [eexists; vm_compute; reflexivity|].
+  split; constructor. discriminate.
+Qed.
